@@ -86,7 +86,7 @@ func runCase(t *testing.T) func(Case) pbt.Result {
 				for _, p := range e.Pubs {
 					ri.headPos = append(ri.headPos, len(p.Chain)-1)
 					// only a request parked at a closed gate is known not to finish before the registration
-					ri.parked = append(ri.parked, p.IsHeld() && p.InFlight() > 0)
+					ri.parked = append(ri.parked, p.IsHeld() && p.Parked() > 0)
 				}
 				e.Run(i, st, known)
 				if len(e.Listeners) > nl {
